@@ -152,11 +152,15 @@ theorem frame_slots_disjoint_in_bounds :
     decFrame.slotsOk declaredOverlays ∧ genFrame.slotsOk [] ∧ encFrame.slotsOk [] := by
   decide +kernel
 
-/-- the local area is completely named (no anonymous words the maps would have to cover) -/
-theorem frame_locals_fully_named :
-    (decFrame.slots.filter (fun s => s.base == .locals && s.aliasOf.isNone && s.name != "_VAR_sr")).length * 8 = decFrame.fpLocals ∧
-    (genFrame.slots.filter (fun s => s.base == .locals && s.aliasOf.isNone)).length * 8 = genFrame.fpLocals ∧
-    (encFrame.slots.filter (fun s => s.base == .locals && s.aliasOf.isNone)).length * 8 = encFrame.fpLocals := by
+/-- the named local slots fit in the local area (`≤`, not `=`: the loader is given an EMPTY local pointer map for
+    these frames, so anonymous spare words are never scanned and a frame with unused locals is as good; an earlier
+    version demanded equality and raised a false alarm on the harmless rewrite `jitdec-frame-locals-grown`) -/
+theorem frame_locals_fit :
+    (decFrame.slots.filter (fun s => s.base == .locals && s.aliasOf.isNone && s.name != "_VAR_sr")).length * 8 ≤ decFrame.fpLocals ∧
+    (genFrame.slots.filter (fun s => s.base == .locals && s.aliasOf.isNone)).length * 8 ≤ genFrame.fpLocals ∧
+    (encFrame.slots.filter (fun s => s.base == .locals && s.aliasOf.isNone)).length * 8 ≤ encFrame.fpLocals ∧
+    -- the justification, as a regenerated fact: no local word of these frames is declared a pointer to the runtime
+    decFrame.localPtrs.all (· == false) ∧ genFrame.localPtrs.all (· == false) ∧ encFrame.localPtrs.all (· == false) := by
   decide +kernel
 
 /-- the argument pointer bitmap handed to the loader is, word for word, the pointer-ness of the
